@@ -516,6 +516,12 @@ func runC03(c *h.Ctx) {
 		big_ := make([]byte, 1<<16+300)
 		measure(c, t, "64KiB-zeros", big_)
 	}
+	// ---- histories of refused type-3 requests: nothing is retained --------------------------------
+	for _, t := range targets {
+		if t.name == "type3.Issuer.Evaluate" || t.name == "type3.Request.Unmarshal+attester.VerifyRequest" {
+			c03RetainedOverHistory(c, t.name, req3b, t.f)
+		}
+	}
 	// ---- ecdsa.Verify with adversarial (r, s): zero, negative, N, N+1, multiples ------------------
 	N := elliptic.P384().Params().N
 	vals := []*big.Int{big.NewInt(0), big.NewInt(1), big.NewInt(-1), new(big.Int).Neg(N), N, new(big.Int).Add(N, big.NewInt(1)), new(big.Int).Sub(N, big.NewInt(1)),
